@@ -76,6 +76,10 @@ def step (rs : Regs) (line : String) : Regs × String :=
     match look rs a with
     | some A => (match Mat.defaultMass A with | some A' => (put rs a A', "ok") | none => (rs, "panic"))
     | none => (rs, "bad-op")
+  | ["fill", a, c] =>
+      match look rs a with
+      | some A => (put rs a (Mat.fill A (parseF c)), "ok")
+      | none => (rs, "bad-op")
   | ["isid", a] =>
       match look rs a with
       | some A => (rs, match A.isIdentity with | some b => s!"bool {b}" | none => "panic")
